@@ -1,5 +1,5 @@
 SPECIFICATION GSpec
-CONSTANTS NLeaf = 34
+CONSTANTS NLeaf = 38
   NKey = 6
   MaxDepth = 2
   Sim = TRUE
